@@ -1,0 +1,25 @@
+//go:build verif
+
+// Contracts for package innerstorage (key-value store), checked by /verif (govc). Comment-only.
+package innerstorage
+
+// ---------------------------------------------------------------------------------------------
+// C12: a remote value is decoded and authenticated before anything else looks at it.
+//
+//@ func (*github.com/anyproto/any-sync/commonspace/spacesyncproto.StoreKeyInner).UnmarshalVT
+//@   modifies object arg0
+//@ func iface crypto.PubKey.Account
+//@   pure
+//@ func iface crypto.PubKey.PeerId
+//@   pure
+//@ package github.com/anyproto/any-sync/commonspace/object/keyvalue/keyvaluestorage/innerstorage
+
+//@ func KeyValueFromProto
+//@   modifies nothing
+//@   requires proto != nil
+//@   ensures [account_signed]   err == nil && verify ==> sigOK(crypto.UnmarshalEd25519PublicKeyProto(innerValue.Identity), bytestr(proto.Value), proto.IdentitySignature)
+//@   ensures [device_signed]    err == nil && verify ==> sigOK(crypto.UnmarshalEd25519PublicKeyProto(innerValue.Peer), bytestr(proto.Value), proto.PeerSignature)
+//@   ensures [stores_signed_bytes] err == nil ==> kv.Value.Value == proto.Value && kv.Value.IdentitySignature == proto.IdentitySignature && kv.Value.PeerSignature == proto.PeerSignature
+//@   ensures [slot_is_signed_one] err == nil && verify ==> proto.KeyPeerId == innerValue.Key + "-" + crypto.UnmarshalEd25519PublicKeyProto(innerValue.Peer).PeerId() && kv.KeyPeerId == proto.KeyPeerId
+//@   ensures [fields_from_signed] err == nil ==> kv.Key == innerValue.Key && kv.AclId == innerValue.AclHeadId && kv.TimestampMicro == innerValue.TimestampMicro && kv.Identity == crypto.UnmarshalEd25519PublicKeyProto(innerValue.Identity).Account() && kv.PeerId == crypto.UnmarshalEd25519PublicKeyProto(innerValue.Peer).PeerId()
+//@   ensures [timestamp_orderable] err == nil ==> kv.TimestampMicro >= 0
